@@ -418,6 +418,9 @@ def binop_values(self, op, a, b):
                 return self.wrap(zu.bit_and_const(y, a), "int")
             return self.wrap(_bitfun("bitand")(x, y), "int")
         if k is ast.BitOr:
+            mx, my = zu.maybe_mask(x), zu.maybe_mask(y)
+            if mx is not None and my is not None and (mx & my) == 0:
+                return self.wrap(x + y, "int")          # no common bit can be set: or == sum
             if isinstance(b, int) and b >= 0:
                 return self.wrap(x + b - zu.bit_and_const(x, b), "int")
             if isinstance(a, int) and a >= 0:
